@@ -28,6 +28,7 @@ fn main() {
         "holder-stress" => holder::stress(&args),
         "sink-drive" => sink::drive(&args),
         "sink-conc" => sink::conc(&args),
+        "stack-drive" => sink::stack(&args),
         "queue-stress" => queue::stress(&args),
         "queue-replay" => queue::replay(&args),
         other => {
